@@ -129,4 +129,10 @@ theorem reference_shape_laws :
     (∀ s, (Ref.refCrypto.pubOf s).length = 32) ∧ (∀ s, ∀ b ∈ Ref.refCrypto.pubOf s, b < 256) :=
   ⟨Ref.ref_sign_len, Ref.ref_sign_byte, Ref.ref_pub_len, Ref.ref_pub_byte⟩
 
+/-- the reference verification is strict where RFC 8032 is: only 32-byte keys and 64-byte signatures, and never a signature whose scalar is not reduced
+below the group order (no second encoding of a valid signature) -/
+theorem reference_strict (pub msg sig : Ref.B8) :
+    (Ref.verify pub msg sig = true → pub.length = 32 ∧ sig.length = 64) ∧ (Ref.L ≤ Ref.leNat (sig.drop 32) → Ref.verify pub msg sig = false) :=
+  ⟨Ref.ref_verify_lengths pub msg sig, Ref.ref_verify_rejects_unreduced_scalar pub msg sig⟩
+
 end CCT.C19
